@@ -310,7 +310,10 @@ def gen_complex(rng):
         others.append(G.water(rng, "A", 900, c, 9.0))
         feats.add("water")
     if rng.random() < 0.5:
-        w = G.water(rng, "A", 950, (c[0] - 25, c[1], c[2]), 2.0, "XYZ")
+        # chains are processed in the order of their identifiers: the other group may come before (A) or after (Z) the ligand (L)
+        och = rng.choice(["A", "Z"])
+        feats.add("other-hetero-" + ("before" if och == "A" else "after") + "-ligand")
+        w = G.water(rng, och, 950, (c[0] - 25, c[1], c[2]), 2.0, "XYZ")
         w[0].name = rng.choice([lig_names[1 % len(lig_names)], "ZN", "Q9"])
         if w[0].name in lig_names:
             feats.add("other-hetero-shares-name")
@@ -318,7 +321,15 @@ def gen_complex(rng):
             feats.add("other-hetero")
         others.append(w)
     order = rng.random() < 0.5
-    text = G.to_pdb([res], ([ligand] + others) if order else (others + [ligand]))
+    chains = [res]
+    if rng.random() < 0.3:
+        # a second peptide chain whose identifier sorts after the ligand's
+        _f2, res2 = G.window(rng, 3)
+        G.set_chain(res2, "P", 1)
+        G.rigid(res2, [[1, 0, 0], [0, 1, 0], [0, 0, 1]], (c[0] - G.centroid(res2)[0], c[1] - G.centroid(res2)[1] + 45.0, c[2] - G.centroid(res2)[2]))
+        chains.append(res2)
+        feats.add("second-chain-after-ligand")
+    text = G.to_pdb(chains, ([ligand] + others) if order else (others + [ligand]))
     return text, "\n".join(mol2) + "\n", lig_res, lig_names, feats
 
 
